@@ -231,3 +231,51 @@ Example C01_host_case_port_nonvacuous :
   tserve (tbuild [(bs "*.a.com"%string, 7)]) [] (with_port (bs "B.a.Com"%string) (Some (bs "8080"%string))) (bs "/"%string) 1
     = Site 7 (bs "/"%string).
 Proof. vm_compute. auto. Qed.
+
+(* the refinement is an invariant of Insert from ANY refining state, and any refining pair
+   routes identically (not only tries built from the empty one) *)
+Theorem C01_trie_insert_preserves_refinement : forall root m key s,
+  refines root m -> refines (tinsert root key s) (insert m key s).
+Proof. exact refines_insert. Qed.
+Print Assumptions C01_trie_insert_preserves_refinement.
+Theorem C01_trie_serve_refines_any : forall root m xf hh up proto,
+  refines root m -> tserve root xf hh up proto = serve m xf hh up proto.
+Proof. exact tserve_refines. Qed.
+Print Assumptions C01_trie_serve_refines_any.
+Example C01_trie_refines_nonvacuous :
+  refines (tbuild [(bs "a.com/x"%string, 1); (bs "*.com"%string, 2)]) (build [(bs "a.com/x"%string, 1); (bs "*.com"%string, 2)]).
+Proof. apply trie_refines_map. Qed.
+
+(* bracketed (IPv6) literals: brackets, letter case and port are ignored as well — for every text
+   between the brackets that is not itself of the form host:port (an IPv6 address has at least
+   two colons), and every ordinary request path (empty or starting with "/") *)
+Theorem C01_host_bracket_port_irrelevant_partial : forall sites xf a a' port port' up proto,
+  no_byte LBR a = true -> no_byte RBR a = true -> no_byte SLASH a = true ->
+  no_byte LBR a' = true -> no_byte RBR a' = true -> no_byte SLASH a' = true ->
+  split_host_port (to_lower a) = None ->
+  match port with Some p => plain p = true | None => True end ->
+  match port' with Some p => plain p = true | None => True end ->
+  to_lower a = to_lower a' -> upto_slash up = [] ->
+  tserve (tbuild sites) xf (bracketed a port) up proto =
+  tserve (tbuild sites) xf (bracketed a' port') up proto.
+Proof. exact host_bracket_port_irrelevant. Qed.
+Print Assumptions C01_host_bracket_port_irrelevant_partial.
+Example C01_host_bracket_port_nonvacuous :
+  let a := bs "2001:DB8::1"%string in
+  no_byte LBR a = true /\ no_byte RBR a = true /\ no_byte SLASH a = true /\
+  split_host_port (to_lower a) = None /\ upto_slash (bs "/x"%string) = [] /\
+  tserve (tbuild [(bs "[2001:db8::1]:2015/x"%string, 5)]) [] (bracketed a (Some (bs "80"%string))) (bs "/x"%string) 1
+    = Site 5 (bs "/x"%string) /\
+  tserve (tbuild [(bs "[2001:db8::1]:2015/x"%string, 5)]) [] (bracketed a None) (bs "/x"%string) 1
+    = Site 5 (bs "/x"%string).
+Proof. vm_compute. repeat split; reflexivity. Qed.
+
+(* without that hypothesis the claim is false: "[a.com:1]:2" loses its brackets with the port and
+   is then read as host:port a second time *)
+Theorem C01_host_bracket_port_irrelevant_refuted :
+  exists sites xf a port up proto,
+    no_byte LBR a = true /\ no_byte RBR a = true /\ no_byte SLASH a = true /\ plain port = true /\
+    tserve (tbuild sites) xf (bracketed a (Some port)) up proto <>
+    tserve (tbuild sites) xf (bracketed a None) up proto.
+Proof. exact host_bracket_one_colon_differs. Qed.
+Print Assumptions C01_host_bracket_port_irrelevant_refuted.
